@@ -41,12 +41,17 @@ open SV
 
 /-! ## restated predicates -/
 
-/-- textual copy of the hypothesis `J'` of `SV.Sys.sys_ingest_to_read_crash`, Proofs/SystemReplay.lean:192 (= SystemClosed.lean:63),
-with `hotLog := (Replica.storeDocuments coldT hotT oracle Replica.init).2.hotLog` and `nHot := hot.length` -/
+/-- textual copy of the hypothesis `J'` of `SV.Sys.sys_ingest_to_read_crash` AS IT WAS STATED UNTIL WAVE 4 (per logged success;
+then Proofs/SystemReplay.lean:192 = SystemClosed.lean:63), with `hotLog := (Replica.storeDocuments coldT hotT oracle
+Replica.init).2.hotLog` and `nHot := hot.length`.  Since wave 5 the `sys_*` theorems state `sysJprimeFull` instead; this form
+survives as the hypothesis of `SV.Sys.sys_junction_of_per_success` (Proofs/SystemJunction.lean:113). -/
 def sysJprime (hotLog : Replica.Log) (nHot : Nat) (Hst : Nat → List WPath.Ev) (blk : WPath.Blk × WPath.Blk) : Prop :=
   ∀ s r, (s, r) ∈ hotLog → s < nHot ∧ blk ∈ WPath.ackedOf (Hst s)
 
-/-- the part of J' that `sys_served_found` uses (it calls `serve s 0 (hsFull 0 hR)` for the shard of C09's full set) -/
+/-- the part of J' that `sys_served_found` uses.  Since wave 5 this IS the hypothesis `J'` of the `sys_*` theorems, word for word:
+Proofs/SystemReplay.lean:195 (`sys_ingest_to_read_crash`), Proofs/SystemClosed.lean:64 (`sys_ingest_to_read`), with `R := hotT.R`;
+it is the conclusion of `SV.Sys.sys_junction` (Proofs/SystemJunction.lean:39), which is proved by `cons_sys_junction_fullSet`
+below (checked against that file: no drift) -/
 def sysJprimeFull (R : Nat) (hotLog : Replica.Log) (nHot : Nat) (Hst : Nat → List WPath.Ev) (blk : WPath.Blk × WPath.Blk) : Prop :=
   ∀ s, (∀ r, r < R → (s, r) ∈ hotLog) → s < nHot ∧ blk ∈ WPath.ackedOf (Hst s)
 
@@ -67,7 +72,9 @@ theorem sysJunction_call_acked (items : List BulkH.Item) (count : Nat) (d m : WP
 
 /-! ## the residual environment premise -/
 
-/-- **what is really left**: the gRPC transport between the replica client and the stores.  `items s r` = everything that
+/-- **what is really left**: the gRPC transport between the replica client and the stores (`deliver` is, word for word, the
+hypothesis `deliver` of `SV.Sys.sys_junction` / `sys_ingest_to_read_transport`, Proofs/SystemJunction.lean:41 and :85; `topology`
+is derived there from `hvis` (:44, :88) by `cons_sys_hotLog_shards_visited`).  `items s r` = everything that
 happened to the store of replica `r` of shard `s` (handler calls with their environments, crashes, restarts).  For the payload
 `blk` and C09's log of successful calls:
 * `deliver`: a success logged for `(s, r)` is the OK answer of a `Bulk` handler call on *that* store whose request carried
